@@ -290,7 +290,7 @@ func realStart(d *memory.Database, sp startSpec) startResult {
 		store.dead = true
 	}
 	var runErr error
-	finished := lib.WithDeadline(20*time.Second, func() {
+	finished := store.runWatched(8*time.Second, 120*time.Second, func() {
 		e, panicked, stack := lib.Try(func() error { return runner.Run(ctx) })
 		runErr = e
 		if panicked {
